@@ -222,3 +222,142 @@ Proof.
   destruct (race_register n tl (aset N.eq_dec n p names)) as [m2 oks]. cbn [fst snd] in *. subst m2.
   split; [apply aget_aset_eq|]. exists oks. auto.
 Qed.
+
+(* ---------- uniqueness: a registration succeeds only on a free key and then owns it ---------- *)
+Lemma register_name_unique p pr n s s' :
+  register_name p pr n s = (s', ROk) ->
+  ahas N.eq_dec n (s_names s) = false /\ aget N.eq_dec n (s_names s') = Some p /\
+  (forall n', n' <> n -> aget N.eq_dec n' (s_names s') = aget N.eq_dec n' (s_names s)).
+Proof.
+  unfold register_name. destruct (pr_name pr); [discriminate|].
+  destruct (ahas N.eq_dec n (s_names s)) eqn:E; [discriminate|]. intros H. inversion H; subst; clear H. cbn.
+  split; [reflexivity|]. split; [apply aget_aset_eq|]. intros n' NE. apply aget_aset_neq, NE.
+Qed.
+
+Lemma register_name_taken p pr n s q :
+  aget N.eq_dec n (s_names s) = Some q -> register_name p pr n s = (s, RErr e_taken).
+Proof.
+  intros H. unfold register_name, ahas. rewrite H. destruct (pr_name pr); reflexivity.
+Qed.
+
+Lemma create_alias_unique p pr s s' a :
+  create_alias p pr s = (s', RAlias a) ->
+  ahas N.eq_dec a (s_aliases s) = false /\ aget N.eq_dec a (s_aliases s') = Some p /\ a = s_uniq s + 1.
+Proof.
+  unfold create_alias. destruct (ahas N.eq_dec (s_uniq s + 1) (s_aliases s)) eqn:E; [discriminate|].
+  intros H. inversion H; subst; clear H. cbn. split; [exact E|]. split; [apply aget_aset_eq | reflexivity].
+Qed.
+
+Lemma register_event_unique p pr e s s' :
+  register_event p pr e s = (s', ROk) ->
+  ahas N.eq_dec e (s_events s) = false /\ aget N.eq_dec e (s_events s') = Some p.
+Proof.
+  unfold register_event. destruct (ahas N.eq_dec e (s_events s)) eqn:E; [discriminate|].
+  intros H. inversion H; subst; clear H. cbn. split; [reflexivity | apply aget_aset_eq].
+Qed.
+
+Lemma register_event_taken p pr e s q :
+  aget N.eq_dec e (s_events s) = Some q -> register_event p pr e s = (s, RErr e_taken).
+Proof. intros H. unfold register_event, ahas. rewrite H. reflexivity. Qed.
+
+(* ---------- release: what unregisterProcess leaves behind ---------- *)
+Lemma tsteps_rels l : forall s k, idx_ok (s_tm s) -> In k (rels (s_tm (tsteps l s))) ->
+  In k (rels (s_tm s)) /\ (forall t r, In (TDrain t r) l -> kt k <> t) /\ (forall q, In (TCleanCons q) l -> kc k <> q).
+Proof.
+  induction l as [|y l IH]; intros s k OK HI; cbn [tsteps fold_left] in HI.
+  - split; [exact HI|]. split; intros; contradiction.
+  - fold (tsteps l (tstep_exec y s)) in HI. apply IH in HI; [|apply tstep_idx_ok, OK].
+    destruct HI as (H1 & H2 & H3).
+    assert (G : In k (rels (s_tm s)) /\ (forall t r, y = TDrain t r -> kt k <> t) /\ (forall q, y = TCleanCons q -> kc k <> q)).
+    { destruct y; cbn [tstep_exec] in H1; try (split; [exact H1|split; intros; discriminate]).
+      - apply drain_rels in H1; [|exact OK]. destruct H1 as [A B]. split; [exact A|].
+        split; [intros t0 r0 E; inversion E; subst; exact B | intros q E; discriminate].
+      - cbn in H1. apply (cleanup_consumer_spec p (s_tm s) OK) in H1. destruct H1 as [A B].
+        split; [exact A|]. split; [intros t0 r0 E; discriminate | intros q E; inversion E; subst; exact B]. }
+    destruct G as (G1 & G2 & G3). split; [exact G1|]. split.
+    + intros t r [E|HI]; [apply (G2 t r E) | eapply H2; eauto].
+    + intros q [E|HI]; [apply (G3 q E) | eapply H3; eauto].
+Qed.
+
+Theorem terminate_release_relations p pr r s k :
+  idx_ok (s_tm s) -> aget pid_dec p (s_procs s) = Some pr ->
+  In k (rels (s_tm (terminate p r s))) ->
+  In k (rels (s_tm s)) /\ kc k <> p /\ kt k <> TPid p /\
+  (forall n, pr_name pr = Some n -> kt k <> TName n me) /\
+  (forall a, In a (pr_aliases pr) -> kt k <> TAlias me a) /\
+  (forall e, In e (pr_events pr) -> kt k <> TEvent e me).
+Proof.
+  intros OK E HI. unfold terminate, term_prog in HI. rewrite E in HI.
+  apply tsteps_rels in HI; [|exact OK]. destruct HI as (H1 & H2 & H3). unfold term_prog_of in *.
+  split; [exact H1|]. split; [apply H3; right; right; left; reflexivity|].
+  split; [apply (H2 (TPid p) r); right; left; reflexivity|].
+  split; [|split].
+  - intros n En. apply (H2 (TName n me) r). right. right. right. apply in_or_app. left. rewrite En. right. left. reflexivity.
+  - intros a Ha. apply (H2 (TAlias me a) r). right. right. right. apply in_or_app. right. apply in_or_app. left.
+    apply in_flat_map. exists a. split; [exact Ha|]. right. left. reflexivity.
+  - intros e He. apply (H2 (TEvent e me) r). right. right. right. apply in_or_app. right. apply in_or_app. right.
+    apply in_flat_map. exists e. split; [exact He|]. right. left. reflexivity.
+Qed.
+
+(* tables only shrink along the termination program, and the deleted keys are gone *)
+Lemma tstep_tables y s :
+  (forall q, aget pid_dec q (s_procs s) = None -> aget pid_dec q (s_procs (tstep_exec y s)) = None) /\
+  (forall n, aget N.eq_dec n (s_names s) = None -> aget N.eq_dec n (s_names (tstep_exec y s)) = None) /\
+  (forall a, aget N.eq_dec a (s_aliases s) = None -> aget N.eq_dec a (s_aliases (tstep_exec y s)) = None) /\
+  (forall e, aget N.eq_dec e (s_events s) = None -> aget N.eq_dec e (s_events (tstep_exec y s)) = None).
+Proof.
+  destruct y; cbn [tstep_exec]; try (repeat split; intros; assumption).
+  - repeat split; intros; try assumption. cbn. destruct (pid_dec q p) as [->|D]; [apply aget_adel_eq | rewrite aget_adel_neq by exact D; assumption].
+  - destruct (drain_frame t r s) as (A & B & C & D & _). rewrite A, B, C, D. repeat split; intros; assumption.
+  - repeat split; intros; try assumption. cbn. destruct (N.eq_dec n0 n) as [->|D]; [apply aget_adel_eq | rewrite aget_adel_neq by exact D; assumption].
+  - repeat split; intros; try assumption. cbn. destruct (N.eq_dec a0 a) as [->|D]; [apply aget_adel_eq | rewrite aget_adel_neq by exact D; assumption].
+  - repeat split; intros; try assumption. cbn. destruct (N.eq_dec e0 e) as [->|D]; [apply aget_adel_eq | rewrite aget_adel_neq by exact D; assumption].
+Qed.
+
+Lemma tsteps_cons y l s : tsteps (y :: l) s = tsteps l (tstep_exec y s). Proof. reflexivity. Qed.
+Lemma tsteps_nil s : tsteps [] s = s. Proof. reflexivity. Qed.
+
+Lemma tsteps_keep l : forall s,
+    (forall q, aget pid_dec q (s_procs s) = None -> aget pid_dec q (s_procs (tsteps l s)) = None) /\
+    (forall n, aget N.eq_dec n (s_names s) = None -> aget N.eq_dec n (s_names (tsteps l s)) = None) /\
+    (forall a, aget N.eq_dec a (s_aliases s) = None -> aget N.eq_dec a (s_aliases (tsteps l s)) = None) /\
+    (forall e, aget N.eq_dec e (s_events s) = None -> aget N.eq_dec e (s_events (tsteps l s)) = None).
+Proof.
+  induction l as [|y l IH]; intros s; [rewrite tsteps_nil; repeat split; intros; assumption|].
+  rewrite tsteps_cons. destruct (IH (tstep_exec y s)) as (A & B & C & D).
+  destruct (tstep_tables y s) as (A' & B' & C' & D'). repeat split; intros; auto.
+Qed.
+
+Lemma tsteps_deleted l : forall s,
+  (forall q, In (TDelProc q) l -> aget pid_dec q (s_procs (tsteps l s)) = None) /\
+  (forall n, In (TDelName n) l -> aget N.eq_dec n (s_names (tsteps l s)) = None) /\
+  (forall a, In (TDelAlias a) l -> aget N.eq_dec a (s_aliases (tsteps l s)) = None) /\
+  (forall e, In (TDelEvent e) l -> aget N.eq_dec e (s_events (tsteps l s)) = None).
+Proof.
+  induction l as [|y l IH]; intros s; [repeat split; intros; contradiction|].
+  rewrite tsteps_cons.
+  destruct (IH (tstep_exec y s)) as (A & B & C & D). destruct (tsteps_keep l (tstep_exec y s)) as (A' & B' & C' & D').
+  repeat split.
+  - intros q [E|HI]; [subst y; apply A'; cbn; apply aget_adel_eq | apply A, HI].
+  - intros n [E|HI]; [subst y; apply B'; cbn; apply aget_adel_eq | apply B, HI].
+  - intros a [E|HI]; [subst y; apply C'; cbn; apply aget_adel_eq | apply C, HI].
+  - intros e [E|HI]; [subst y; apply D'; cbn; apply aget_adel_eq | apply D, HI].
+Qed.
+
+Theorem terminate_release_tables p pr r s :
+  aget pid_dec p (s_procs s) = Some pr ->
+  let s' := terminate p r s in
+  aget pid_dec p (s_procs s') = None /\
+  (forall n, pr_name pr = Some n -> aget N.eq_dec n (s_names s') = None) /\
+  (forall a, In a (pr_aliases pr) -> aget N.eq_dec a (s_aliases s') = None) /\
+  (forall e, In e (pr_events pr) -> aget N.eq_dec e (s_events s') = None).
+Proof.
+  intros E. cbn zeta. unfold terminate, term_prog. rewrite E.
+  destruct (tsteps_deleted (term_prog_of p pr r) s) as (A & B & C & D). unfold term_prog_of in *.
+  split; [apply A; left; reflexivity|]. split; [|split].
+  - intros n En. apply B. right. right. right. apply in_or_app. left. rewrite En. left. reflexivity.
+  - intros a Ha. apply C. right. right. right. apply in_or_app. right. apply in_or_app. left.
+    apply in_flat_map. exists a. split; [exact Ha | left; reflexivity].
+  - intros e He. apply D. right. right. right. apply in_or_app. right. apply in_or_app. right.
+    apply in_flat_map. exists e. split; [exact He | left; reflexivity].
+Qed.
